@@ -225,8 +225,8 @@ def conds(tier):
         cs.append(Cond("punctdel-m%d-n%d" % (m, n), "harness.c11:punctdel", e1_params(m, n) + ws + [P("quiet", "bool")],
                        fixed={"m": m, "n": n}, pre=[e1_wf_expr(m, n)], shard=["quiet"] + (["w1"] if m * n >= 9 else []) +
                        (["lp1"] if m * n >= 12 else []), timeout=400 if q else 2400, functions=FUNCS[:2]))
-    for (m, n) in ([(2, 2), (2, 3)] if q else [(2, 2), (2, 3), (3, 3)]):
-        ks = [P("k%d" % j, "int", 0, 4 if not q else 3) for j in range(1, n + 1)]
+    for (m, n) in ([(1, 2), (1, 3), (2, 2)] if q else [(1, 3), (2, 2), (2, 3), (3, 3)]):
+        ks = [P("k%d" % j, "int", 0, 4) for j in range(1, n + 1)]
         cl = [P("c%d" % i, "int", 0, 4) for i in range(1, m)]
         cs.append(Cond("traces-m%d-n%d" % (m, n), "harness.c11:traces",
                        e1_params(m, n) + ks + cl + [P("ks", "int", 0, 3), P("keepall", "bool"), P("kci", "bool"), P("slash", "bool")],
@@ -235,14 +235,14 @@ def conds(tier):
                                 m, n, ", ".join("ip%d" % i for i in range(1, m)), ", ".join("lp%d" % j for j in range(1, n + 1)),
                                 ", ".join("k%d" % j for j in range(1, n + 1)), ", ".join("c%d" % i for i in range(1, m))),
                             "not (keepall and ks > 0)"],
-                       shard=["ks", "kci", "slash"] + (["k1"] if n >= 3 else []) + (["c1"] if n >= 3 else []),
+                       shard=["ks", "kci", "slash"] + (["k1"] if n >= 3 else []) + (["c1"] if n >= 3 and m >= 2 else []),
                        timeout=600 if q else 3000, functions=FUNCS[2:3]))
     for (m, n) in ([(1, 2), (2, 2), (2, 3)] if q else [(1, 2), (2, 2), (2, 3), (3, 3), (3, 4)]):
         base = [P("op", "int", 0, 2), P("quiet", "bool"), P("sid1", "int", 1, 3), P("idx1", "int", 0, n + 3)]
         cs.append(Cond("edit1-m%d-n%d" % (m, n), "harness.c11:edits", e1_params(m, n) + base,
                        fixed={"m": m, "n": n, "two": False, "sid2": 1, "idx2": 0}, pre=[e1_wf_expr(m, n)],
                        shard=["op", "quiet"], timeout=400 if q else 2400, functions=FUNCS[3:5]))
-        if not q or (m, n) == (2, 2):
+        if not q or (m, n) == (1, 2):
             cs.append(Cond("edit2-m%d-n%d" % (m, n), "harness.c11:edits",
                            e1_params(m, n) + base + [P("sid2", "int", 1, 3), P("idx2", "int", 0, n + 4)],
                            fixed={"m": m, "n": n, "two": True}, pre=[e1_wf_expr(m, n)], shard=["op", "quiet", "sid1"],
